@@ -30,6 +30,8 @@ CONSTANTS Envs,      \* set of <<ca, tz>>
           MaxConns,
           Long,      \* tokens whose text is >= 64 characters
           BadIdna,   \* tokens whose text the idna codec rejects
+          DnsIp,     \* set of <<d, i>>: token d is the IP literal of token i written as a dNSName (another SAN type,
+                     \* same text: as an untyped CN it reads as the address i)
           LegacyCnRaises, LegacyCritSan   \* named deviations before bf9975be6 / 25ceae060 (FALSE = the current code)
 VARIABLES env, pc, cur, store, n, mon, obs
 vars == <<env, pc, cur, store, n, mon, obs>>
@@ -60,6 +62,7 @@ Encoded(c) == (IF c.upopt /\ LegacyCnRaises THEN Opt(c.upcn) ELSE <<>>) \o <<Ide
 Raises(c) == \E i \in 1..Len(Encoded(c)) : Encoded(c)[i] \in BadIdna
 RaiseSrc(c) == IF c.upopt /\ c.upcn \in BadIdna THEN "upstream_cn" ELSE "other"
 
+CnTok(t) == IF \E p \in DnsIp : p[1] = t THEN (CHOOSE p \in DnsIp : p[1] = t)[2] ELSE t
 Pool == IF n = 0 THEN (IF env = MainEnv THEN Conns ELSE ConnsAlt) ELSE Conns2
 GetCert(c) ==
   /\ Live /\ pc = "idle" /\ n < MaxConns /\ c \in Pool
@@ -84,7 +87,7 @@ Issue ==
      IN /\ store' = IF Cached(key) THEN store ELSE store \cup {<<key, org>>}
         /\ Emit(<<[k |-> "leaf", ident |-> Ident(c),
                    allowed |-> Dedup(<<Ident(c)>> \o Opt(c.addr) \o UpNames(c), {}),
-                   names |-> (IF cur.cn \in Long THEN <<>> ELSE <<cur.cn>>) \o cur.alt,
+                   names |-> (IF cur.cn \in Long THEN <<>> ELSE <<CnTok(cur.cn)>>) \o cur.alt,
                    issuer_ok |-> TRUE, nb |-> (tz - 48) * 3600, na |-> (tz - 48 + 199 * 24) * 3600,
                    eku_server |-> TRUE, verify |-> IF LegacyCritSan /\ cur.cn \in Long /\ org THEN CritSan ELSE "ok",
                    fresh |-> ~Cached(key),
